@@ -3,7 +3,7 @@ CONSTANTS
   MaxKids = 2
   AttrKinds = {"call", "class", "onClick", "spread", "on", "dir", "vmodel", "trivial", "vmodels"}
   KidKinds = {"call", "member", "trivial", "text", "elem", "comp", "direlem"}
-  OptCombos = {"TTT", "FFF"}
+  OptCombos = {"TTT", "FFF", "FTT"}
   AttrKinds3 = {"call", "class", "onClick", "spread", "on", "vmodels"}
   KidKinds3 = {"call"}
 INIT Init
